@@ -46,121 +46,212 @@ def func_body(src, signature_re):
     return src[m.end():i - 1]
 
 
+# what the model is given for an item the translator cannot read from the source: the configuration the theorems are
+# stated for (every reader check present) and the tables of the last tree it could read.  The item becomes a FAILED
+# obligation ("(T) … could be read"), the model stays buildable, and the differential run then shows whether the
+# unreadable source still behaves like that configuration (a concrete damaged archive / write sequence if not).
+DEFAULTS = {
+    "tagNames": ["Null", "Byte", "Char", "Short", "UShort", "Integer", "UInteger", "Long", "ULong", "Float", "Double",
+                 "Boolean", "Raw", "Object", "ObjectPointer", "SafePointer", "Position", "Size"],
+    "version": 1, "nullPointer": 4294312974,
+    "primTable": [("i8", "Char", 1), ("i16", "Short", 2), ("i32", "Integer", 4), ("i64", "Long", 8), ("u8", "Byte", 1),
+                  ("u16", "UShort", 2), ("u32", "UInteger", 4), ("u64", "ULong", 8), ("chr", "Char", 1), ("size", "Size", 8),
+                  ("byte", "Byte", 1), ("f32", "Float", 4), ("f64", "Double", 8), ("bool", "Boolean", 1), ("pos", "Position", 4)],
+    "varTypeNames": ["None", "String", "Integer", "Float", "Char", "ConstString", "Listener", "Ref", "Array", "ConstArray",
+                     "Container", "SafeContainer", "Pointer", "Vector"],
+    "bracket": [(">", "ReadPastEndObject"), ("<", "NotReadEntireDataObject")],
+}
+
+
+class Unread(Exception):
+    """one item of the source could not be recognised (not a failure of the machinery: a failed obligation)"""
+
+
+def _read(repo, *parts):
+    try:
+        return strip_cpp_comments(open(os.path.join(repo, *parts)).read())
+    except OSError as e:
+        raise Unread("cannot read %s: %s" % ("/".join(parts), e))
+
+
 def extract(repo=None):
-    """what the model needs to know from the text of Archiver.cpp"""
+    """what the model needs to know from the text of the sources.  Never raises for a source it cannot read:
+    `d["unread"]` lists (item, why) and the item gets its DEFAULTS value / `True` for a reader switch."""
     repo = repo or REPO
-    src = strip_cpp_comments(open(os.path.join(repo, "src", "Script", "Archiver.cpp")).read())
-    strsrc = strip_cpp_comments(open(os.path.join(repo, "src", "Common", "str.cpp")).read())
-    m = re.search(r"enum\s+dataType_e\s*\{(.*?)\}", src, re.S)
-    if not m:
-        raise CheckError("translator: enum dataType_e not found")
-    names = [x.strip() for x in m.group(1).split(",") if x.strip()]
-    if any("=" in n for n in names) or names[-1] != "Max":
-        raise CheckError("translator: dataType_e has explicit values / no Max sentinel: " + repr(names))
-    names = names[:-1]
-    m = re.search(r"ARCHIVE_VERSION\s*=\s*(\d+)\s*;", src)
-    version = int(m.group(1))
-    m = re.search(r"ARCHIVE_NULL_POINTER\s*=\s*~\s*(\d+)u\s*;", src)
-    nullp = (~int(m.group(1))) & 0xFFFFFFFF
-    prim = {}
-    for m in re.finditer(r"void\s+Archiver::Archive(\w+)\s*\(\s*(\w+)\s*&\s*(\w+)\s*\)\s*\{\s*ArchiveData\s*\(\s*dataType_e::(\w+)\s*,"
-                         r"\s*&\s*(\w+)\s*,\s*sizeof\s*\(\s*(\w+)\s*\)\s*\)\s*;\s*\}", src):
-        call, ctype, arg, tag, a2, a3 = m.groups()
-        if call in CALL2PRIM and arg == a2 == a3 and ctype in CTYPE_W:
-            prim[CALL2PRIM[call]] = (tag, CTYPE_W[ctype])
-    missing = [p for p in PRIMS if p not in prim]
-    if missing:
-        raise CheckError("translator: Archive* calls not recognised: " + ", ".join(missing))
-    flags = {}
-    body = func_body(src, r"void\s+Archiver::ReadDataInternal\s*\([^)]*\)")
-    if body is None or "->read(" not in body.replace(" ", ""):
-        raise CheckError("translator: ReadDataInternal not recognised")
-    after = body.replace(" ", "").split("->read(", 1)[1]
-    flags["checkAfterRead"] = bool(("throw" in after and re.search(r"fail\(\)|good\(\)|gcount\(\)", after))
-                                   or "CheckRead()" in after)
-    m = re.search(r"mversion\s*!=\s*ARCHIVE_VERSION\s*(\|\||&&)\s*version\s*!=\s*info\.version", src)
-    if not m:
-        raise CheckError("translator: version test in CreateRead not recognised")
-    flags["versionOr"] = m.group(1) == "||"
-    # the five places of the reader that use an index taken from the archive
-    guarded = 0
-    for sig in [r"void\s+Archiver::ArchiveObjectPointer\s*\(\s*void\s*\*\s*&\s*\w+\s*\)",
-                r"void\s+Archiver::ArchiveObjectPosition\s*\([^)]*\)",
-                r"void\s+Archiver::ArchiveSafePointer\s*\([^)]*\)",
-                r"void\s+Archiver::ArchiveObject\s*\([^)]*\)",
-                r"Class\s*\*\s*Archiver::ReadObject\s*\(\s*\)"]:
-        b = func_body(src, sig)
-        if b is None:
-            raise CheckError("translator: reader function not recognised: " + sig)
-        if re.search(r"CheckIndex\s*\(\s*index\s*\)", b):
-            guarded += 1
-    cb = func_body(src, r"void\s+Archiver::CheckIndex\s*\([^)]*\)") or ""
-    okdef = bool(re.search(r"index\s*==\s*0\s*\|\|\s*index\s*>\s*classpointerList\.NumObjects\(\)", cb)) and "throw" in cb
-    flags["indexChecked"] = guarded == 5 and okdef
-    # lengths taken from the archive are compared with what the stream still holds before allocating
-    sb = func_body(strsrc, r"void\s+mfuse::Archive\s*\(\s*Archiver\s*&\s*arc\s*,\s*base_str<CharT>\s*&\s*s\s*\)") or ""
-    cr = func_body(src, r"Archiver\s+Archiver::CreateRead\s*\([^)]*\)") or ""
-    flags["lengthChecked"] = bool(re.search(r"length\s*>\s*arc\.GetRemainingSize\(\)", sb)) and \
-        bool(re.search(r"numClasses\s*>\s*arc\.GetRemainingSize\(\)\s*/\s*8", cr))
-    # ScriptVariable::ArchiveInternal, String kind: how the string object of a loaded value is created
-    svsrc = strip_cpp_comments(open(os.path.join(repo, "src", "Script", "ScriptVariable.cpp")).read())
-    ab = func_body(svsrc, r"void\s+ScriptVariable::ArchiveInternal\s*\([^)]*\)")
-    if ab is None:
-        raise CheckError("translator: ScriptVariable::ArchiveInternal not recognised")
-    m = re.search(r"m_data\.stringValue\s*=\s*new\s+str\s*(\(([^)]*)\))?\s*;", ab)
-    if not m:
-        raise CheckError("translator: creation of the loaded string value not recognised")
-    flags["valueStrFresh"] = (m.group(2) or "").strip() == ""
-    # the kind read from the archive goes into a local; `type` is None while the payload is read and set at the end
-    m = re.search(r"arc\.ArchiveEnum\(\s*(\w+)\s*\)", ab)
-    if not m:
-        raise CheckError("translator: ArchiveEnum of the variable kind not recognised")
-    loc = m.group(1)
-    flags["valueTypeLate"] = loc != "type" and bool(re.search(
-        r"Loading\(\)\s*\)\s*\{?\s*type\s*=\s*variableType_e::None\s*;", ab)) and bool(
-        re.search(r"switch\s*\(\s*%s\s*\)" % loc, ab)) and bool(re.search(r"\}\s*type\s*=\s*%s\s*;\s*$" % loc, ab.strip()))
-    m = re.search(r"enum\s+class\s+variableType_e\s*\{(.*?)\}", strip_cpp_comments(
-        open(os.path.join(repo, "include", "morfuse", "Script", "ScriptVariable.h")).read()), re.S)
-    if not m:
-        raise CheckError("translator: enum variableType_e not found")
-    vnames = [x.strip() for x in m.group(1).split(",") if x.strip()]
-    if any("=" in n for n in vnames) or vnames[-1] != "Max":
-        raise CheckError("translator: variableType_e has explicit values / no Max sentinel")
-    # the size bracket behind the body of an object record: one copy in ArchiveObject (read branch; ReadObject<T>()
-    # goes through it), one in the non-template ReadObject()
-    brackets = {}
-    for key, sig in [("bracketInto", r"void\s+Archiver::ArchiveObject\s*\([^)]*\)"),
-                     ("bracketPoly", r"Class\s*\*\s*Archiver::ReadObject\s*\(\s*\)")]:
-        b = func_body(src, sig)
-        if key == "bracketInto":
-            # the read branch only
-            m = re.search(r"if\s*\(\s*archivemode\s*==\s*archiveMode_e::Read\s*\)\s*\{", b)
-            if not m:
-                raise CheckError("translator: read branch of ArchiveObject not recognised")
-            i, depth = m.end(), 1
-            while i < len(b) and depth:
-                depth += {"{": 1, "}": -1}.get(b[i], 0)
-                i += 1
-            b = b[m.end():i - 1]
-        if not re.search(r"objstart\s*=\s*readStream->tellg\(\)", b) or not re.search(r"endpos\s*=\s*readStream->tellg\(\)", b):
-            raise CheckError("translator: objstart/endpos of %s not recognised" % key)
-        after = b.split("endpos", 1)[1]
-        chain = re.findall(r"if\s*\(\s*\(\s*endpos\s*-\s*objstart\s*\)\s*(>|<|!=)\s*size\s*\)\s*\{?\s*throw\s+ArchiveErrors::(\w+)\s*\(", after)
-        other = len(re.findall(r"\bthrow\b", after)) - len(chain)
-        if other or any(e not in ("ReadPastEndObject", "NotReadEntireDataObject") for _, e in chain):
-            raise CheckError("translator: size bracket of %s not recognised: %r" % (key, chain))
-        brackets[key] = chain
-    # load side of StringDictionary::ArchiveString: how the text read from the archive becomes a const_str
-    sdsrc = strip_cpp_comments(open(os.path.join(repo, "src", "Common", "StringDictionary.cpp")).read())
-    ab2 = func_body(sdsrc, r"void\s+StringDictionary::ArchiveString\s*\([^)]*\)")
-    if ab2 is None:
-        raise CheckError("translator: StringDictionary::ArchiveString not recognised")
-    m = re.search(r"constStringValue\s*=\s*(\w+)\s*\(\s*value(?:\.c_str\(\))?\s*\)\s*;", ab2)
-    if not m or m.group(1) not in ("Add", "Get"):
-        raise CheckError("translator: load side of StringDictionary::ArchiveString not recognised")
-    flags["dictLoadAdds"] = m.group(1) == "Add"
-    return {"brackets": brackets, "varTypeNames": vnames[:-1], "tagNames": names, "version": version, "nullPointer": nullp,
-            "primTable": [(p, prim[p][0], prim[p][1]) for p in PRIMS], "flags": flags}
+    unread = []
+
+    def item(name, fn, default):
+        try:
+            return fn()
+        except Unread as e:
+            unread.append((name, str(e)))
+        except Exception as e:      # a regex group missing etc.: same meaning
+            unread.append((name, "%s: %s" % (type(e).__name__, e)))
+        return default
+
+    def src():
+        return _read(repo, "src", "Script", "Archiver.cpp")
+
+    def tag_names():
+        m = re.search(r"enum\s+dataType_e\s*\{(.*?)\}", src(), re.S)
+        if not m:
+            raise Unread("enum dataType_e not found")
+        names = [x.strip() for x in m.group(1).split(",") if x.strip()]
+        if any("=" in n for n in names) or names[-1] != "Max":
+            raise Unread("dataType_e has explicit values / no Max sentinel: " + repr(names))
+        return names[:-1]
+
+    def version():
+        m = re.search(r"ARCHIVE_VERSION\s*=\s*(\d+)\s*;", src())
+        if not m:
+            raise Unread("ARCHIVE_VERSION not found")
+        return int(m.group(1))
+
+    def nullp():
+        m = re.search(r"ARCHIVE_NULL_POINTER\s*=\s*~\s*(\d+)u\s*;", src())
+        if not m:
+            raise Unread("ARCHIVE_NULL_POINTER not found")
+        return (~int(m.group(1))) & 0xFFFFFFFF
+
+    def prim_table():
+        prim = {}
+        for m in re.finditer(r"void\s+Archiver::Archive(\w+)\s*\(\s*(\w+)\s*&\s*(\w+)\s*\)\s*\{\s*ArchiveData\s*\(\s*dataType_e::(\w+)\s*,"
+                             r"\s*&\s*(\w+)\s*,\s*sizeof\s*\(\s*(\w+)\s*\)\s*\)\s*;\s*\}", src()):
+            call, ctype, arg, tag, a2, a3 = m.groups()
+            if call in CALL2PRIM and arg == a2 == a3 and ctype in CTYPE_W:
+                prim[CALL2PRIM[call]] = (tag, CTYPE_W[ctype])
+        missing = [p for p in PRIMS if p not in prim]
+        if missing:
+            raise Unread("Archive* calls not recognised: " + ", ".join(missing))
+        return [(p, prim[p][0], prim[p][1]) for p in PRIMS]
+
+    def check_after_read():
+        body = func_body(src(), r"void\s+Archiver::ReadDataInternal\s*\([^)]*\)")
+        if body is None or "->read(" not in body.replace(" ", ""):
+            raise Unread("ReadDataInternal not recognised")
+        after = body.replace(" ", "").split("->read(", 1)[1]
+        return bool(("throw" in after and re.search(r"fail\(\)|good\(\)|gcount\(\)", after)) or "CheckRead()" in after)
+
+    def version_or():
+        m = re.search(r"mversion\s*!=\s*ARCHIVE_VERSION\s*(\|\||&&)\s*version\s*!=\s*info\.version", src())
+        if not m:
+            raise Unread("version test in CreateRead not recognised")
+        return m.group(1) == "||"
+
+    def index_checked():
+        # the five places of the reader that use an index taken from the archive
+        guarded = 0
+        for sig in [r"void\s+Archiver::ArchiveObjectPointer\s*\(\s*void\s*\*\s*&\s*\w+\s*\)",
+                    r"void\s+Archiver::ArchiveObjectPosition\s*\([^)]*\)",
+                    r"void\s+Archiver::ArchiveSafePointer\s*\([^)]*\)",
+                    r"void\s+Archiver::ArchiveObject\s*\([^)]*\)",
+                    r"Class\s*\*\s*Archiver::ReadObject\s*\(\s*\)"]:
+            b = func_body(src(), sig)
+            if b is None:
+                raise Unread("reader function not recognised: " + sig)
+            if re.search(r"CheckIndex\s*\(\s*index\s*\)", b):
+                guarded += 1
+        cb = func_body(src(), r"void\s+Archiver::CheckIndex\s*\([^)]*\)") or ""
+        okdef = bool(re.search(r"index\s*==\s*0\s*\|\|\s*index\s*>\s*classpointerList\.NumObjects\(\)", cb)) and "throw" in cb
+        return guarded == 5 and okdef
+
+    def length_checked():
+        # lengths taken from the archive are compared with what the stream still holds before allocating
+        strsrc = _read(repo, "src", "Common", "str.cpp")
+        sb = func_body(strsrc, r"void\s+mfuse::Archive\s*\(\s*Archiver\s*&\s*arc\s*,\s*base_str<CharT>\s*&\s*s\s*\)")
+        cr = func_body(src(), r"Archiver\s+Archiver::CreateRead\s*\([^)]*\)")
+        if sb is None or cr is None:
+            raise Unread("Archive(Archiver&, str&) / CreateRead not recognised")
+        return bool(re.search(r"length\s*>\s*arc\.GetRemainingSize\(\)", sb)) and \
+            bool(re.search(r"numClasses\s*>\s*arc\.GetRemainingSize\(\)\s*/\s*8", cr))
+
+    def archive_internal():
+        svsrc = _read(repo, "src", "Script", "ScriptVariable.cpp")
+        ab = func_body(svsrc, r"void\s+ScriptVariable::ArchiveInternal\s*\([^)]*\)")
+        if ab is None:
+            raise Unread("ScriptVariable::ArchiveInternal not recognised")
+        return ab
+
+    def value_str_fresh():
+        # ScriptVariable::ArchiveInternal, String kind: how the string object of a loaded value is created
+        m = re.search(r"m_data\.stringValue\s*=\s*new\s+str\s*(\(([^)]*)\))?\s*;", archive_internal())
+        if not m:
+            raise Unread("creation of the loaded string value not recognised")
+        return (m.group(2) or "").strip() == ""
+
+    def value_type_late():
+        # the kind read from the archive goes into a local; `type` is None while the payload is read and set at the end
+        ab = archive_internal()
+        m = re.search(r"arc\.ArchiveEnum\(\s*(\w+)\s*\)", ab)
+        if not m:
+            raise Unread("ArchiveEnum of the variable kind not recognised")
+        loc = m.group(1)
+        return loc != "type" and bool(re.search(
+            r"Loading\(\)\s*\)\s*\{?\s*type\s*=\s*variableType_e::None\s*;", ab)) and bool(
+            re.search(r"switch\s*\(\s*%s\s*\)" % loc, ab)) and bool(re.search(r"\}\s*type\s*=\s*%s\s*;\s*$" % loc, ab.strip()))
+
+    def var_type_names():
+        m = re.search(r"enum\s+class\s+variableType_e\s*\{(.*?)\}", _read(repo, "include", "morfuse", "Script", "ScriptVariable.h"), re.S)
+        if not m:
+            raise Unread("enum variableType_e not found")
+        vnames = [x.strip() for x in m.group(1).split(",") if x.strip()]
+        if any("=" in n for n in vnames) or vnames[-1] != "Max":
+            raise Unread("variableType_e has explicit values / no Max sentinel")
+        return vnames[:-1]
+
+    def bracket(key):
+        # the size bracket behind the body of an object record: one copy in ArchiveObject (read branch; ReadObject<T>()
+        # goes through it), one in the non-template ReadObject()
+        def go():
+            sig = {"bracketInto": r"void\s+Archiver::ArchiveObject\s*\([^)]*\)",
+                   "bracketPoly": r"Class\s*\*\s*Archiver::ReadObject\s*\(\s*\)"}[key]
+            b = func_body(src(), sig)
+            if b is None:
+                raise Unread("function not recognised")
+            if key == "bracketInto":
+                m = re.search(r"if\s*\(\s*archivemode\s*==\s*archiveMode_e::Read\s*\)\s*\{", b)
+                if not m:
+                    raise Unread("read branch of ArchiveObject not recognised")
+                i, depth = m.end(), 1
+                while i < len(b) and depth:
+                    depth += {"{": 1, "}": -1}.get(b[i], 0)
+                    i += 1
+                b = b[m.end():i - 1]
+            if not re.search(r"objstart\s*=\s*readStream->tellg\(\)", b) or not re.search(r"endpos\s*=\s*readStream->tellg\(\)", b):
+                raise Unread("objstart/endpos not recognised (the size bracket is not the inline "
+                             "`if ((endpos - objstart) OP size) throw …` chain any more)")
+            after = b.split("endpos", 1)[1]
+            chain = re.findall(r"if\s*\(\s*\(\s*endpos\s*-\s*objstart\s*\)\s*(>|<|!=)\s*size\s*\)\s*\{?\s*throw\s+ArchiveErrors::(\w+)\s*\(", after)
+            other = len(re.findall(r"\bthrow\b", after)) - len(chain)
+            if other or any(e not in ("ReadPastEndObject", "NotReadEntireDataObject") for _, e in chain):
+                raise Unread("size bracket not recognised: %r" % (chain,))
+            return chain
+        return go
+
+    def dict_load_adds():
+        # load side of StringDictionary::ArchiveString: how the text read from the archive becomes a const_str
+        ab2 = func_body(_read(repo, "src", "Common", "StringDictionary.cpp"), r"void\s+StringDictionary::ArchiveString\s*\([^)]*\)")
+        if ab2 is None:
+            raise Unread("StringDictionary::ArchiveString not recognised")
+        m = re.search(r"constStringValue\s*=\s*(\w+)\s*\(\s*value(?:\.c_str\(\))?\s*\)\s*;", ab2)
+        if not m or m.group(1) not in ("Add", "Get"):
+            raise Unread("load side of StringDictionary::ArchiveString not recognised")
+        return m.group(1) == "Add"
+
+    flags = {
+        "checkAfterRead": item("checkAfterRead", check_after_read, True),
+        "versionOr": item("versionOr", version_or, True),
+        "indexChecked": item("indexChecked", index_checked, True),
+        "lengthChecked": item("lengthChecked", length_checked, True),
+        "valueStrFresh": item("valueStrFresh", value_str_fresh, True),
+        "valueTypeLate": item("valueTypeLate", value_type_late, True),
+        "dictLoadAdds": item("dictLoadAdds", dict_load_adds, True),
+    }
+    brackets = {k: item(k, bracket(k), DEFAULTS["bracket"]) for k in ("bracketInto", "bracketPoly")}
+    return {"brackets": brackets, "varTypeNames": item("varTypeNames", var_type_names, DEFAULTS["varTypeNames"]),
+            "tagNames": item("tagNames", tag_names, DEFAULTS["tagNames"]), "version": item("version", version, DEFAULTS["version"]),
+            "nullPointer": item("nullPointer", nullp, DEFAULTS["nullPointer"]),
+            "primTable": item("primTable", prim_table, DEFAULTS["primTable"]), "flags": flags, "unread": unread}
 
 
 def gen_text(d):
@@ -209,6 +300,14 @@ def translate(ctx):
     changed = common.write_if_changed(GEN, gen_text(d))
     ctx.stats["gen_archive_table_changed"] = changed
     ctx.stats["reader_switches"] = d["flags"]
+    # a source the translator cannot read is "harmless rewrite or breaking change?": a failed obligation, never an
+    # error of the machinery.  The model is built with the configuration the theorems need for that item and the
+    # differential run goes on: if the real code no longer behaves like it, a concrete input follows.
+    ctx.oblige("(T) the reader / writer configuration could be read from the source (Archiver.cpp, str.cpp, "
+               "ScriptVariable.cpp/.h, StringDictionary.cpp)", not d["unread"],
+               "; ".join("%s: %s" % u for u in d["unread"]) +
+               " - the model was built with the expected configuration for these items; see the differential run")
+    ctx.stats["translator_unread"] = [u[0] for u in d["unread"]]
     return d
 
 
@@ -228,7 +327,7 @@ def cfg_obligations(ctx, flags, need, notes):
     for i, n in enumerate(names):
         bad = ("Cfg.lean:%d:" % (i + 2)) in out
         if bad != (not flags[n]):
-            raise CheckError("translator and Lean disagree on switch " + n + ":\n" + out[-1500:])
+            ctx.oblige("(T) translator and Lean agree on switch " + n, False, out[-1500:])
         ctx.oblige("reader switch %s: %s" % (n, need[n]), not bad,
                    "the code in $VERIF_REPO does not do this; see " + notes, reported=True)
         allok = allok and not bad
